@@ -158,13 +158,33 @@ def nullable_rule(chk, qm):
             exprs = [ef[1] for ef in p.effects if ef[0] in ("expr", "assert")] + [ef[3] for ef in p.effects if ef[0] in ("store", "substore")] + ([p.end[1]] if p.end[1] is not None else [])
             exprs += [c for c, _, _ in p.conds]
             exprs += [ef[1] for ef in p.effects if ef[0] == "with"]
+            # short-circuit guards: in `A and B`, B is only evaluated when A holds - `self.frozen and not self.weight.requires_grad`,
+            # `self.bias is not None and self.bias.dtype == ...`
+            sc_guarded = set()
+            for e in exprs:
+                for bo in [x for x in ast.walk(e) if isinstance(x, ast.BoolOp) and isinstance(x.op, ast.And)]:
+                    established = set()
+                    for v_ in bo.values:
+                        for x in ast.walk(v_):
+                            if isinstance(x, ast.Attribute) and U(x.value) in established:
+                                sc_guarded.add(id(x))
+                        t_ = U(v_)
+                        if t_.endswith(" is not None"):
+                            established.add(t_[: -len(" is not None")])
+                        if t_ in ("self.frozen",) or t_.startswith("isinstance(self.weight,"):
+                            established.add("self.weight")
+                        if isinstance(v_, ast.Call) and U(v_.func) == "isinstance" and v_.args:
+                            established.add(U(v_.args[0]))
             for e in exprs:
                 for sub in _derefs(e, nullable, recv_names):
                     derefs.append(sub)
             for node, recv, attr in derefs:
                 n += 1
                 base = f"{recv}.{attr}"
-                guarded = f.get(f"{base} is None") is False or f.get(f"{U(node.value)} is None") is False
+                guarded = f.get(f"{base} is None") is False or f.get(f"{U(node.value)} is None") is False or id(node) in sc_guarded
+                if base == "self.weight":
+                    # a frozen module holds a quantized weight: `self.frozen` / isinstance(self.weight, ...) holding on the path means the weight exists
+                    guarded = guarded or f.get("self.frozen") is True or any(v is True and k.startswith("isinstance(self.weight,") for k, v in f.items())
                 if recv == "qmodule":
                     # the twin has the parameter iff the source module has it (constructor mirror, C08.R2)
                     guarded = guarded or f.get(f"module.{attr} is None") is False
@@ -295,7 +315,7 @@ def walk_rule(chk):
         return None
 
     ok_f = ok_c = ok_s = ok_g = ok_w = True
-    n_build = n_skip = 0
+    n_build = n_skip = n_extra = 0
     detail_f = ""
     for pth in bps:
         f = path_facts(pth)
@@ -329,6 +349,13 @@ def walk_rule(chk):
             n_skip += 1
             if sets:
                 ok_s = False
+            # an additional, optional filter: a parameter of quantize() that defaults to None and, when given, names modules to leave alone
+            # (`exclude is not None and m in exclude`): with the default the selection is the one the statement describes
+            opt_names = [a_.arg for a_, d_ in zip(q.args.args[len(q.args.args) - len(q.args.defaults):], q.args.defaults) if isinstance(d_, ast.Constant) and d_.value is None and a_.arg != modules]
+            extra = any((f.get(f"{o} is not None and {m} in {o}") is True) or (f.get(f"{o} is not None") is True and f.get(f"{m} in {o}") is True) for o in opt_names)
+            if fo is not True and extra:
+                n_extra += 1
+                continue
             if fo is not True:
                 # a path that builds nothing must be a filtered-out module
                 ok_f, detail_f = False, f"a module is skipped on a path where the filter outcome is {fo} ({' & '.join(pth.cond_texts())[:120]})"
